@@ -32,6 +32,14 @@ Theorem valid_trace_sound :
 Proof. exact C06_Global.valid_trace_sound. Qed.
 Print Assumptions valid_trace_sound.
 
+(* the variant evaluated on the recorded traces (well-formedness of each distinct analyzer graph computed once) *)
+Theorem valid_trace_fast_sound :
+  forall Rp Ra top tabs assign cap (tr : list (glabel Rp Ra)),
+    valid_trace_fast Rp Ra top tabs assign cap tr = true ->
+    valid_trace Rp Ra (gdag_of_shared top tabs assign) cap tr = true.
+Proof. exact C06_Global.valid_trace_fast_sound. Qed.
+Print Assumptions valid_trace_fast_sound.
+
 Theorem wf_dagb_sound : forall G, wf_dagb G = true -> wf_dag G.
 Proof. exact C06_Base.wf_dagb_sound. Qed.
 Print Assumptions wf_dagb_sound.
